@@ -1,35 +1,44 @@
 (* C11 — Received packets survive re-serialisation.
-   For EVERY byte string d that Packet::parse accepts, the parsed packet is well-formed in the sense of C02 (the image
-   theorem), hence both serialisations succeed and parse back to the same packet - PARTIAL, under four side conditions
-   that the statement spells out:
+   For EVERY byte string d that Packet::parse accepts, the parsed packet lies in a class of well-formed packets (the image
+   theorem; the class allows OPT-typed records left in any section) for which both serialisations succeed and parse back
+   to the same packet, the compressed one being no longer - under two side conditions that the statement spells out:
      - the opcode and response code have a named variant (otherwise: known finding F21, witnessed below for RCODE;
        a reserved OPCODE is shown to give the same packet although the bytes differ);
-     - no OPT-typed record is left in a section after the first one was lifted out (a second OPT record, or one outside
-       the additional section, is covered by the correspondence slice only);
      - every typed RDATA re-encodes within 65535 bytes (names that were compressed in the input are written in full, so
        an RDATA of almost 64 KiB holding compressed names can outgrow RDLENGTH; `as u16` then truncates - not reachable
        for messages shorter than 65535 - 253 * (names per record) bytes).
    Property theorems only. *)
-Require Import SD.Base SD.Codes SD.Header SD.HeaderProofs SD.Name SD.RData SD.RDataProofs SD.Packet SD.RoundTrip SD.Reserialise.
-
-Theorem C11_image : forall d p, parse_packet d = Ok p ->
-  named_opcode (h_opcode (hdr p)) -> named_rcode (h_rcode (hdr p)) -> no_stray_opt p -> rdata_fit p -> wf_packet p.
-Proof. exact parse_packet_image. Qed.
-Print Assumptions C11_image.
+Require Import SD.Base SD.Codes SD.Header SD.HeaderProofs SD.Name SD.RData SD.RDataProofs SD.Packet SD.RoundTrip SD.Reserialise
+  SD.StrayOpt SD.ReserialiseGen.
 
 Theorem C11_reserialise : forall d p, parse_packet d = Ok p ->
-  named_opcode (h_opcode (hdr p)) -> named_rcode (h_rcode (hdr p)) -> no_stray_opt p -> rdata_fit p ->
-  exists b bc, write_packet p = Ok b /\ write_packet_compressed p = Ok bc /\ parse_packet b = Ok p /\ parse_packet bc = Ok p.
-Proof. exact reserialise. Qed.
+  named_opcode (h_opcode (hdr p)) -> named_rcode (h_rcode (hdr p)) -> rdata_fit p ->
+  exists b bc, write_packet p = Ok b /\ write_packet_compressed p = Ok bc /\ parse_packet b = Ok p /\ parse_packet bc = Ok p /\ len bc <= len b.
+Proof. exact reserialise_gen. Qed.
 Check C11_reserialise : forall d p, parse_packet d = Ok p ->
-  named_opcode (h_opcode (hdr p)) -> named_rcode (h_rcode (hdr p)) -> no_stray_opt p -> rdata_fit p ->
-  exists b bc, write_packet p = Ok b /\ write_packet_compressed p = Ok bc /\ parse_packet b = Ok p /\ parse_packet bc = Ok p.
+  named_opcode (h_opcode (hdr p)) -> named_rcode (h_rcode (hdr p)) -> rdata_fit p ->
+  exists b bc, write_packet p = Ok b /\ write_packet_compressed p = Ok bc /\ parse_packet b = Ok p /\ parse_packet bc = Ok p /\ len bc <= len b.
 Print Assumptions C11_reserialise.
 
-(* element level: what each accepted record / question / RDATA is *)
-Theorem C11_record_image : forall d p r e, parse_rr d p = Ok (r, e) ->
-  type_of_rdata (rdata_of r) <> TY M_OPT -> rdata_fits (rdata_of r) -> wf_rr r.
-Proof. exact parse_rr_image. Qed.
+(* the image of the parser *)
+Theorem C11_image : forall d p, parse_packet d = Ok p ->
+  named_opcode (h_opcode (hdr p)) -> named_rcode (h_rcode (hdr p)) -> rdata_fit p -> wf_packet_gen p.
+Proof. exact parse_packet_image_gen. Qed.
+Print Assumptions C11_image.
+(* without OPT-typed records left in the sections it is the C02 predicate itself *)
+Theorem C11_image_plain : forall d p, parse_packet d = Ok p ->
+  named_opcode (h_opcode (hdr p)) -> named_rcode (h_rcode (hdr p)) -> no_stray_opt p -> rdata_fit p -> wf_packet p.
+Proof. exact parse_packet_image. Qed.
+Print Assumptions C11_image_plain.
+(* the round trip on the whole class *)
+Theorem C11_roundtrip_gen : forall p, wf_packet_gen p ->
+  parse_packet (enc_packet p) = Ok p /\ parse_packet (encc_packet p) = Ok p /\ len (encc_packet p) <= len (enc_packet p).
+Proof. intros p H. split; [apply packet_roundtrip_gen; exact H|apply packet_roundtrip_compressed_gen; exact H]. Qed.
+Print Assumptions C11_roundtrip_gen.
+
+(* element level: what each accepted record / question is *)
+Theorem C11_record_image : forall d p r e, parse_rr d p = Ok (r, e) -> rdata_fits (rdata_of r) -> rr_ok r.
+Proof. exact parse_rr_ok. Qed.
 Print Assumptions C11_record_image.
 Theorem C11_question_image : forall d p q e, parse_question d p = Ok (q, e) -> wf_question q.
 Proof. exact parse_question_image. Qed.
@@ -43,8 +52,13 @@ Print Assumptions C11_reserved_rcode_refuted.
 Example C11_reserved_opcode_harmless :
   exists p, parse_packet f21_message = Ok p /\ h_opcode (hdr p) = OpReserved /\ parse_packet (enc_packet p) = Ok p /\ enc_packet p <> f21_message.
 Proof. exact reserved_opcode_same_packet. Qed.
-(* non-vacuity: the C02 sample's bytes are an accepted input meeting every side condition *)
+(* non-vacuity: the side conditions hold for the serialisation of every C02-well-formed packet, and a message with two OPT
+   records (outside the C02 class) is accepted and survives *)
 Theorem C11_side_conditions_satisfiable : forall p, wf_packet p ->
   parse_packet (enc_packet p) = Ok p /\ named_opcode (h_opcode (hdr p)) /\ named_rcode (h_rcode (hdr p)) /\ no_stray_opt p /\ rdata_fit p.
 Proof. exact side_conditions_satisfiable. Qed.
 Print Assumptions C11_side_conditions_satisfiable.
+Example C11_two_opt_records :
+  exists p, parse_packet two_opt_message = Ok p /\ popt p <> None /\ ~ no_stray_opt p /\
+            parse_packet (enc_packet p) = Ok p /\ parse_packet (encc_packet p) = Ok p.
+Proof. exact two_opt_survives. Qed.
